@@ -97,6 +97,9 @@ def exc_line(e):
         return "(raise ype)"
     if MergeException and isinstance(e, MergeException):
         return "(raise mergeexc)"
+    import re as _re
+    if isinstance(e, _re.error):
+        return "(raise (crash ReError))"
     return "(raise (crash %s))" % type(e).__name__
 
 
